@@ -135,10 +135,17 @@ func offTag(s *Scenario) string {
 	if s.Kind == "shape" && len(s.Hist) == 1 {
 		return ":" + s.Hist[0].Op
 	}
-	if s.F.Arcs {
-		return ":arcs"
+	t := ""
+	if s.F.MvClose {
+		t += ":moveto-close"
 	}
-	return ""
+	for _, c := range s.Hist {
+		if c.Op == "Append" || c.Op == "Join" {
+			t += ":append-join"
+			break
+		}
+	}
+	return t
 }
 
 func judgeCfg(nchunks int) string {
@@ -195,7 +202,7 @@ func verdictMismatches(v Verdict, s *Scenario, ev Event, offDetail string) []cor
 	sort.Strings(v.WF)
 	for _, w := range v.WF {
 		sig := "wf-" + w
-		if s.F.NRev > 0 {
+		if s.F.NRev > 0 || strings.Contains(v.Geom, "reversal-merged") {
 			sig += ":collinear-reversal"
 		}
 		ms = append(ms, core.Mismatch{Signature: sig, Detail: fmt.Sprintf("decoded stream %v breaks well-formedness clause %q (history %s, embedding %s)", sm, w, histString(s.Hist), s.Emb)})
